@@ -555,7 +555,57 @@ def subsets(names):
 _QUIET = []
 
 
+def run_api(acc):
+    """A process wrapped in a worker answers the Process interface like
+    the process itself - also after a schema override reached it."""
+    from vivarium.core.process import ParallelProcess
+    case = {'job': ('api',), 'tag': 'api'}
+    acc.case(key=('api',), outcome='api')
+
+    def mk():
+        return probes.Probe({
+            'pid': 'p', 'ts': 1, 'log_states': False,
+            'schema': {'pool': {'level': {'_default': 10.0, '_emit': True},
+                                'salt': {'_default': 0.5}}},
+            'update': {}, 'init': {'pool': {'level': 7.0}}})
+    override = {'pool': {'salt': {'_default': 3.0, '_updater': 'set'}}}
+    serial = mk()
+    wrapped = ParallelProcess(mk())
+    try:
+        answers = []
+        for proc in (serial, wrapped):
+            proc.merge_overrides(copy.deepcopy(override))
+            answers.append({
+                'get_schema': proc.get_schema(),
+                'schema_override': proc.schema_override,
+                'default_state': proc.default_state(),
+                'initial_state': proc.initial_state(),
+                'is_step': proc.is_step(),
+                'name': proc.name})
+    except Exception as e:  # noqa
+        acc.violate(fw.violation(
+            'C13.crash', f'api:{type(e).__name__}', f'{e!r}', case))
+        return
+    finally:
+        try:
+            wrapped.end()
+        except Exception:  # noqa
+            pass
+    for key in answers[0]:
+        if fw.jdump(_norm(answers[0][key])) != fw.jdump(
+                _norm(answers[1][key])):
+            acc.violate(fw.violation(
+                'C13.transparent', f'api-differs:{key}',
+                f'after merge_overrides({override}) {key} of the process '
+                f'is {answers[0][key]}, of the process in a worker '
+                f'{answers[1][key]}', case))
+            return
+
+
 def run_job(job, acc):
+    if job[0] == 'api':
+        run_api(acc)
+        return
     if not _QUIET:
         # workers that die from an injected fault print a traceback; the
         # fork server (and so every worker) inherits this process's stderr
@@ -569,6 +619,12 @@ def run_job(job, acc):
         _, procs, n_ticks, par, stop = job
         spec, names = sched_world(procs, n_ticks)
         tag = f'sched:{stop[0]}'
+    elif kind == 'adaptive':
+        # p1's timestep depends on a variable that p0 changes
+        _, n_ticks, par, stop = job
+        spec, names = sched_world(((1, 'always'), (1, 'always')), n_ticks)
+        spec['processes']['p1']['ts'] = {'$even_odd': ('shared', 'num')}
+        tag = f'adaptive:{stop[0]}'
     elif kind == 'profile':
         # Engine(profile=True): the worker hands its profile to the parent
         # when it is stopped - also when the profile is far larger than a
@@ -671,6 +727,10 @@ def jobs(ctx):
     for par in subsets(['p', 'w', 'd', 'z0']):
         for stop in [('full',), ('end', 1), ('drop', 1)]:
             out.append(('steps', n_ticks, par, stop))
+    for par in (('p1',), ('p0',), ('p0', 'p1')):
+        for stop in [('full',), ('end', 2)]:
+            out.append(('adaptive', n_ticks + 2, par, stop))
+    out.append(('api',))
     for n_funcs in (50, 6000):
         for par in (('p1',), ('p0', 'p1')):
             # (no 'drop' stop here: an engine that is dropped without
@@ -752,3 +812,6 @@ RULE += (
 
 RULE += (
     ' Profile family: Engine(profile=True) with a parallel process that called 50 / 6000 distinct functions (a profile far larger than a pipe buffer): every stop point returns and every worker is reaped.')
+
+RULE += (
+    ' Adaptive family: a process whose timestep depends on a variable another process changes, serial and in a worker. API law: after merge_overrides a process in a worker answers get_schema / schema_override / default_state / initial_state / is_step / name like the process itself.')
